@@ -328,8 +328,10 @@ fn fault_footprint(view: GraphView<'_>, scope: &NodeId) -> Footprint {
     // the ghost node it tries to delete.
     let warp = view.warp_id();
     let mut fp = own_write_footprint(view, scope);
-    fp.n_write
-        .insert_with_warp(warp, derived_node(b"ghost", scope));
+    let ghost = derived_node(b"ghost", scope);
+    fp.n_write.insert_with_warp(warp, ghost);
+    // deleting a node also clears its α attachment slot
+    fp.a_write.insert(AttachmentKey::node_alpha(nk(warp, ghost)));
     fp
 }
 
@@ -516,8 +518,20 @@ pub struct IntentSpec {
 }
 
 pub fn parent_ref(p: u8) -> IngressCausalParent {
-    IngressCausalParent::TickReceipt {
-        receipt_ref: CausalTickReceiptRef {
+    // High bit selects the typed role; the low bits the receipt coordinate.
+    let inverse = p & 0x80 != 0;
+    let p = p & 0x7f;
+    let receipt_ref = parent_receipt(p);
+    if inverse {
+        IngressCausalParent::ContractInverseTarget { receipt_ref }
+    } else {
+        IngressCausalParent::TickReceipt { receipt_ref }
+    }
+}
+
+fn parent_receipt(p: u8) -> CausalTickReceiptRef {
+    {
+        CausalTickReceiptRef {
             worldline_id: wl_id(p % 3),
             worldline_tick_after: WorldlineTick::from_raw(u64::from(p) + 1),
             commit_global_tick: GlobalTick::from_raw(u64::from(p) + 1),
@@ -525,7 +539,7 @@ pub fn parent_ref(p: u8) -> IngressCausalParent {
             submission_id: [p.wrapping_add(1); 32],
             ticket_digest: [p.wrapping_add(2); 32],
             receipt_content_digest: [p.wrapping_add(3); 32],
-        },
+        }
     }
 }
 
